@@ -206,6 +206,12 @@ impl<'a> Gen<'a> {
             free.checked_sub(o).and_then(|x| x.checked_sub(1)),
             Some(self.rng.below(40) as usize),
         ];
+        if snap.ord.len() > 4 && self.rng.chance(1, 8) {
+            // room for this entry only after a *long* run of evictions (5 … all but one of the entries held)
+            let k = 3 + self.rng.below(snap.ord.len() as u64 - 3) as usize;
+            let run: usize = snap.ord.iter().take(k).fold(0usize, |a, e| a.saturating_add(e.esize));
+            return free.saturating_add(run).saturating_sub(o).saturating_add(self.rng.below(2) as usize).min(1 << 50);
+        }
         if self.prof.name == "extreme" {
             // the size of the pair itself must exist (A-sizes): key heap + value heap + overhead <= usize::MAX
             let top = usize::MAX - o - 64;
@@ -368,7 +374,8 @@ impl<'a> Gen<'a> {
                 };
                 let kind = self.rng.pick(kinds);
                 let forget = self.prof.forget && self.rng.chance(2, 3);
-                OpKind::It { kind, calls: self.calls(snap.len), forget }
+                let unwind = !forget && self.rng.chance(1, 4);
+                OpKind::It { kind, calls: self.calls(snap.len), forget, unwind }
             }
             W_CLEAR => OpKind::Clear,
             W_CLONE => {
@@ -403,8 +410,8 @@ pub fn hashers_for(profile: &str) -> Vec<HKind> {
     match profile {
         "churn" | "capacity" => vec![HKind::Ident, HKind::Const, HKind::Mix, HKind::Mod4, HKind::Default],
         "huge" => vec![HKind::Mix, HKind::Ident, HKind::Default],
-        "clone" | "panic" => vec![HKind::Reseed, HKind::Mix, HKind::Const, HKind::Mod4, HKind::Ident, HKind::Default],
-        _ => vec![HKind::Mix, HKind::Const, HKind::Mod4, HKind::Ident, HKind::Default],
+        "clone" | "panic" => vec![HKind::Reseed, HKind::OneShot, HKind::Mix, HKind::Const, HKind::Mod4, HKind::Ident, HKind::Default],
+        _ => vec![HKind::Mix, HKind::Const, HKind::Mod4, HKind::Ident, HKind::Default, HKind::OneShot],
     }
 }
 
